@@ -397,6 +397,33 @@ func ops() []op {
 			w, _ := quicwire.ConsumeUint8Bytes(b)
 			return append(append([]byte{}, v...), w...)
 		}),
+		{name: "quicwire.Append*", prepare: func(t *rapid.T) any {
+			return [][]byte{gen.Bytes(t, 0, 10, "prefix"), gen.Bytes(t, 0, 40, "payload"), {byte(gen.Uniform(t, 4, "class"))}}
+		}, run: func(in any, p *placer) ([]byte, error) {
+			a := in.([][]byte)
+			v := []uint64{37, 15293, 494878333, 151288809941952652}[a[2][0]]
+			var out []byte
+			for _, f := range []func(dst []byte) []byte{
+				func(dst []byte) []byte { return quicwire.AppendVarint(dst, v) },
+				func(dst []byte) []byte { return quicwire.AppendVarintBytes(dst, a[1]) },
+				func(dst []byte) []byte { return quicwire.AppendUint8Bytes(dst, a[1]) },
+			} {
+				dst := p.put("dst", a[0])
+				g := p.args[len(p.args)-1]
+				res := f(dst)
+				out = append(out, res...)
+				// the appended bytes are what the destination's capacity was given for; everything else - the bytes in front,
+				// the prefix, and the capacity BEHIND the appended encoding - stays the caller's
+				inPlace := cap(dst) > 0 && len(res) > 0 && len(res) <= cap(dst) && &res[:1][0] == &dst[:1][0]
+				if inPlace {
+					copy(g.snapshot[g.lo+len(dst):g.lo+len(res)], g.buf[g.lo+len(dst):g.lo+len(res)])
+				} else {
+					// the result moved to new storage: a multi-step append may have used any part of the capacity it was given before it grew
+					copy(g.snapshot[g.lo+len(dst):g.lo+cap(dst)], g.buf[g.lo+len(dst):g.lo+cap(dst)])
+				}
+			}
+			return out, nil
+		}},
 		{name: "type1.CreateTokenRequestWithBlind+Finalize", prepare: func(t *rapid.T) any {
 			return [][]byte{gen.Challenge().Draw(t, "challenge"), gen.Bytes32().Draw(t, "nonce"), gen.P384Scalar().Draw(t, "blind")}
 		}, run: func(in any, p *placer) ([]byte, error) {
